@@ -356,3 +356,206 @@ def run(ctx, only=None):
             ctx.q('T.pauli_diagonalize2', 'T.diag2 %s %s %d' % (E.estr(O.to_g(nz)), E.estr(O.to_g(nz2)), i0),
                   ([[ival(v) for v in g.tolist()] for g in td2[0]], [ival(v) for v in td2[1].tolist()], [ival(v) for v in td2[2].tolist()]),
                   lambda s_: (E.dstrs(s_.split(' ')[0]), E.dstr(s_.split(' ')[1]), E.dstr(s_.split(' ')[2])))
+    # ================= structured probes (added after the torch-side seed round): inputs a uniform random draw rarely produces
+    nx = 30 if ctx.tier == 'quick' else 300
+    tq = lambda q: np.asarray(q.full()) if hasattr(q, 'full') else np.asarray(q)
+    # ---- selection from lists: integer, slice, boolean masks given as torch / numpy / list, index arrays
+    for _ in range(nx):
+        n = rng.choice([1, 2, 3]); L = rng.randrange(1, 6)
+        Ps = [G.rand_op(rng, n) for _ in range(L)]
+        m = [rng.random() < 0.5 for _ in range(L)]
+        idx = [rng.randrange(-L, L) for _ in range(rng.randrange(1, 4))]
+        a, b = sorted((rng.randrange(0, L + 1), rng.randrange(0, L + 1)))
+        for nm, ip, it_ in (('int', idx[0], idx[0]), ('slice', slice(a, b), slice(a, b)), ('slice-step', slice(None, None, -1), None),
+                            ('mask(torch.bool)', np.array(m), torch.tensor(m)), ('mask(numpy.bool)', np.array(m), np.array(m)), ('mask(list)', m, m),
+                            ('index array', np.array(idx), torch.tensor(idx)), ('index list', idx, idx)):
+            if it_ is None:
+                continue
+            probe('PauliList.__getitem__', lambda: impl.ops_of(impl.plist(Ps)[ip]), lambda: t_ops(tlist(Ps, n)[it_]), (nm, Ps, str(ip)))
+        # units times a list; division by units
+        for c in (1, 1j, -1, -1j):
+            probe('PauliList.__rmul__', lambda: (impl.ops_of(c * impl.plist(Ps)), [int(v) for v in (c * impl.plist(Ps)).ps]),
+                  lambda: (t_ops(c * tlist(Ps, n)), [ival(v) for v in (c * tlist(Ps, n)).ps.tolist()]), (c, Ps))
+            probe('PauliList.__truediv__', lambda: impl.ops_of(impl.plist(Ps) / c), lambda: t_ops(tlist(Ps, n) / c), (c, Ps))
+        probe('PauliList.__neg__', lambda: impl.ops_of(-impl.plist(Ps)), lambda: t_ops(-tlist(Ps, n)), Ps)
+        probe('repr(PauliList)', lambda: repr(1j * impl.plist(Ps)), lambda: repr(1j * tlist(Ps, n)), Ps)
+        probe('PauliList.tokenize', lambda: np.asarray((1j * impl.plist(Ps)).tokenize()).tolist(), lambda: [[ival(v) for v in row] for row in (1j * tlist(Ps, n)).tokenize().tolist()], Ps)
+    # ---- sums and differences with every operand form the port has (Pauli, PauliList, polynomial), both operand orders
+    for _ in range(nx):
+        n = rng.choice([1, 2, 3])
+        ts_ = [(G.rand_op(rng, n), complex(rng.choice([1, -1, 2, 0.5]), rng.choice([0, 1, -0.5]))) for _k in range(2)]
+        Pk, Ls = G.rand_op(rng, n), [G.rand_op(rng, n) for _k in range(2)]
+        pa_ = lambda p: cmap_of(np.asarray(p.gs), np.asarray(p.ps), np.asarray(p.cs))
+        ta_ = lambda p: cmap_of(p.gs.tolist(), p.ps.tolist(), p.cs.tolist())
+        for nm, fp, ft in (('poly + Pauli', lambda: impl.poly(ts_) + impl.pauli(Pk), lambda: tpoly(ts_) + tpauli(Pk)),
+                           ('Pauli + poly', lambda: impl.pauli(Pk) + impl.poly(ts_), lambda: tpauli(Pk) + tpoly(ts_)),
+                           ('poly - Pauli', lambda: impl.poly(ts_) - impl.pauli(Pk), lambda: tpoly(ts_) - tpauli(Pk)),
+                           ('Pauli - poly', lambda: impl.pauli(Pk) - impl.poly(ts_), lambda: tpauli(Pk) - tpoly(ts_)),
+                           ('poly + PauliList', lambda: impl.poly(ts_) + impl.plist(Ls), lambda: tpoly(ts_) + tlist(Ls, n)),
+                           ('Pauli + Pauli', lambda: impl.pauli(Pk) + impl.pauli(Ls[0]), lambda: tpauli(Pk) + tpauli(Ls[0])),
+                           ('poly @ Pauli', lambda: impl.poly(ts_) @ impl.pauli(Pk), lambda: tpoly(ts_) @ tpauli(Pk)),
+                           ('Pauli @ poly', lambda: impl.pauli(Pk) @ impl.poly(ts_), lambda: tpauli(Pk) @ tpoly(ts_))):
+            probe('PauliPolynomial arithmetic (mixed operands)', lambda: pa_(fp()), lambda: ta_(ft()), (nm, ts_, Pk, Ls), cmp=close_maps)
+    # ---- reduce around the tolerance: moduli between tol and sqrt(tol), explicit tolerances
+    for _ in range(nx):
+        n = rng.choice([1, 2])
+        strs = [G.rand_op(rng, n) for _ in range(3)]
+        # explicit tolerances only: the two packages have different defaults (1e-10 and 1e-5: float64 vs complex64 coefficients)
+        tolv = rng.choice([1e-4, 1e-3, 0.1])
+        mags = [1.0, rng.choice([3e-3, 3e-4, 2e-5, 0.2, 0.05]), rng.choice([0.5, -0.499, 4e-3])]
+        terms_ = [(s_, complex(mg, 0) * rng.choice([1, 1j, -1])) for s_, mg in zip(strs, mags)]
+        kw = {} if tolv is None else dict(tol=tolv)
+        pa_ = lambda p: cmap_of(np.asarray(p.gs), np.asarray(p.ps), np.asarray(p.cs))
+        ta_ = lambda p: cmap_of(p.gs.tolist(), p.ps.tolist(), p.cs.tolist())
+        probe('PauliPolynomial.reduce(tol)', lambda: (pa_(impl.poly(terms_).reduce(**kw)), len(impl.poly(terms_).reduce(**kw).cs)),
+              lambda: (ta_(tpoly(terms_).reduce(**kw)), len(tpoly(terms_).reduce(**kw).cs)), (terms_, tolv),
+              cmp=lambda a_, b_: a_[1] == b_[1] and close_maps(a_[0], b_[0]))
+    # ---- expectation of a single Pauli operator with every phase (imaginary ones included), states of every rank incl. r = N
+    for _ in range(nx):
+        n = rng.choice([1, 2, 3])
+        rows, r = G.rand_tableau(rng, n, rng.choice([0, None, n]))
+        Pk = G.rand_observable(rng, rows, n, r)[0]
+        for k in range(4):
+            Pq = (Pk[0], k)
+            probe('StabilizerState.expect(Pauli)', lambda: complex(impl.state(rows, r).expect(impl.pauli(Pq))), lambda: complex(tstate(rows, r).expect(tpauli(Pq))), (rows, r, Pq),
+                  cmp=lambda a_, b_: abs(a_ - b_) < 1e-5)
+        obs_ = [G.rand_observable(rng, rows, n, r)[0] for _ in range(3)]
+        probe('StabilizerState.expect(PauliList)', lambda: [int(v) for v in impl.state(rows, r).expect(impl.plist(obs_, n))],
+              lambda: [ival(v) for v in tstate(rows, r).expect(tlist(obs_, n)).tolist()], (rows, r, obs_))
+        if n <= 3:
+            probe('StabilizerState.to_qutip', lambda: np.round(tq(impl.state(rows, r).to_qutip()), 6).tolist(), lambda: np.round(tq(tstate(rows, r).to_qutip()), 6).tolist(), (rows, r))
+    # ---- entropy on many (state, region) pairs, small N (the recorded real-rank finding needs larger matrices), generators re-mixed
+    for _ in range(nx * 8):
+        n = rng.choice([2, 3, 3, 4, 4])
+        rows, r = G.rand_tableau(rng, n, rng.choice([0, 1, 1, 2, None]))
+        r = min(r, n)
+        reg = sorted(rng.sample(range(n), rng.randrange(0, n + 1)))
+        if not reg:
+            continue
+        want = None
+        probe('StabilizerState.entropy', lambda: int(impl.state(rows, r).entropy(reg)), lambda: ival(tstate(rows, r).entropy(reg)), (rows, r, reg),
+              when_pred=lambda a_, b_: 'explained-by-real-rank-in-torch-z2rank' if (not isinstance(b_, str) and _entropy_real_rank(rows, r, n, reg) == b_) else '')
+    # ---- maps with structure: Pauli layers, signed permutations (SWAP / Hadamard layers), wide registers
+    def special_map(n):
+        kind = rng.choice(['random', 'pauli-layer', 'signed-permutation', 'identity'])
+        if kind == 'random':
+            return G.rand_map_ops(rng, n)
+        rows_ = G.id_map_ops(n)
+        if kind == 'signed-permutation':
+            perm = list(range(n)); rng.shuffle(perm)
+            new = []
+            for k in range(n):
+                xr, zr = rows_[2 * perm[k]], rows_[2 * perm[k] + 1]
+                new += ([zr, xr] if rng.random() < 0.5 else [xr, zr])
+            rows_ = new
+        if kind != 'identity':
+            rows_ = [(l_, 2 * rng.randrange(2)) for l_, _p in rows_]
+        return rows_
+    for _ in range(nx * 2):
+        n = rng.choice([1, 2, 2, 3, 3, 4])
+        A, B = special_map(n), special_map(n)
+        probe('CliffordMap.compose', lambda: impl.ops_of(impl.cmap(A).compose(impl.cmap(B))), lambda: t_ops(tmap(A).compose(tmap(B))), (A, B))
+        probe('CliffordMap.inverse', lambda: impl.ops_of(impl.cmap(A).inverse()), lambda: t_ops(tmap(A).inverse()), A)
+        Qs = [G.rand_op(rng, n) for _ in range(3)]
+        probe('PauliList.transform_by', lambda: impl.ops_of(impl.plist(Qs).transform_by(impl.cmap(A))), lambda: t_ops(tlist(Qs, n).transform_by(tmap(A))), (A, Qs))
+    for n in ([12, 16] if ctx.tier == 'quick' else [12, 14, 16, 20, 24, 33]):
+        A = G.rand_map_ops(rng, n, depth=3 * n)
+        probe('CliffordMap.inverse', lambda: impl.ops_of(impl.cmap(A).inverse()), lambda: t_ops(tmap(A).inverse()), ('wide', n, A))
+        Qs = [G.rand_op(rng, n) for _ in range(3)]
+        gF = TCI.CliffordGate(*range(n)); gF.set_forward_map(tmap(A))
+        gP = CI.CliffordGate(*range(n)); gP.set_forward_map(impl.cmap(A))
+        probe('CliffordGate.backward', lambda: impl.ops_of(gP.backward(gP.forward(impl.plist(Qs)))), lambda: t_ops(gF.backward(gF.forward(tlist(Qs, n)))), ('wide', n))
+    # ---- deeper programs: packing into layers, copies of circuits and of compiled layers, backward of copies
+    for _ in range(nx):
+        n = rng.choice([3, 4, 4, 5])
+        prog = CU.rand_program(rng, n - 1 if rng.random() < 0.3 else n, rng.randrange(4, 12), kinds=('gen', 'fmap', 'bmap'))   # sometimes the last qubit stays idle
+        Qs = [G.rand_op(rng, n) for _ in range(3)]
+
+        def tgate2(d):
+            g = TCI.CliffordGate(*d.get('order', d['qubits']))
+            if d['kind'] == 'gen':
+                g.set_generator(tpauli(d['gen']))
+            elif d['kind'] == 'fmap':
+                g.set_forward_map(tmap(d['F']))
+            else:
+                g.set_backward_map(tmap(d['Fi']))
+            return g
+
+        def build(side):
+            if side == 'py':
+                c = CI.CliffordCircuit(n)
+                for d in prog:
+                    c.take(CU.impl_gate(impl, d))
+            else:
+                c = TCI.CliffordCircuit(); c.N = n
+                for d in prog:
+                    c.take(tgate2(d))
+            return c
+
+        def act(side, how, back):
+            c = build(side)
+            if how == 'copy':
+                c = c.copy()
+                if getattr(c, 'N', None) is None:
+                    c.N = n
+            elif how == 'layer-compiled-copy':
+                for layer in c.layers_forward():
+                    layer.compile(n)
+                c = c.copy()
+                if getattr(c, 'N', None) is None:
+                    c.N = n
+            elif how == 'compiled':
+                c.compile(n) if side == 't' else c.compile()
+            elif how == 'copy-compiled':          # the copy must know its register: compile() without arguments
+                c = c.copy()
+                c.compile()
+            lst = impl.plist(Qs) if side == 'py' else tlist(Qs, n)
+            (c.backward if back else c.forward)(lst)
+            return (impl.ops_of(lst) if side == 'py' else t_ops(lst)), CU.impl_layers(c)
+        # the same program with its rotation gates built by clifford_rotation_gate from the full-register generator
+        def full_gen(d):
+            l = ['I'] * n
+            for j, q in enumerate(d['qubits']):
+                l[q] = d['gen'][0][j]
+            return (tuple(l), d['gen'][1])
+
+        def act_rot(side, back):
+            if side == 'py':
+                c = CI.CliffordCircuit(n)
+                for d in prog:
+                    c.take(CI.clifford_rotation_gate(impl.pauli(full_gen(d))) if d['kind'] == 'gen' and 'order' not in d else CU.impl_gate(impl, d))
+            else:
+                c = TCI.CliffordCircuit(); c.N = n
+                for d in prog:
+                    c.take(TCI.clifford_rotation_gate(tpauli(full_gen(d))) if d['kind'] == 'gen' and 'order' not in d else tgate2(d))
+            lst = impl.plist(Qs) if side == 'py' else tlist(Qs, n)
+            c.forward(lst)
+            if back:
+                c.backward(lst)
+            return (impl.ops_of(lst) if side == 'py' else t_ops(lst)), CU.impl_layers(c)
+        probe('CliffordCircuit.forward', lambda: act_rot('py', False), lambda: act_rot('t', False), ('gates built by clifford_rotation_gate', prog, Qs))
+        probe('CliffordCircuit.backward', lambda: act_rot('py', True), lambda: act_rot('t', True), ('gates built by clifford_rotation_gate', prog, Qs))
+        nzs = G.rand_op(rng, n, nonid=True)[0]
+        for i0_ in range(n):
+            for causal in (False, True):
+                if causal and not any(c_ != 'I' for c_ in nzs[i0_:]):
+                    continue
+                probe('diagonalize(Pauli)', lambda: (impl.ops_of(CI.diagonalize(impl.pauli((nzs, 0)), i0_, causal).forward(impl.plist([(nzs, 0)] + Qs))), CU.impl_layers(CI.diagonalize(impl.pauli((nzs, 0)), i0_, causal))),
+                      lambda: (t_ops(TCI.diagonalize(tpauli((nzs, 0)), i0_, causal).forward(tlist([(nzs, 0)] + Qs, n))), CU.impl_layers(TCI.diagonalize(tpauli((nzs, 0)), i0_, causal))), (nzs, i0_, causal))
+        for how in ('plain', 'copy', 'layer-compiled-copy', 'compiled', 'copy-compiled'):
+            for back in (False, True):
+                nm = {'plain': 'CliffordCircuit.%s', 'copy': 'CliffordCircuit.copy.%s', 'copy-compiled': 'CliffordCircuit.copy.%s', 'layer-compiled-copy': 'CliffordLayer.copy(compiled).%s', 'compiled': 'CliffordCircuit.%s(compiled)'}[how] % ('backward' if back else 'forward')
+                probe(nm, lambda: act('py', how, back), lambda: act('t', how, back), (prog, Qs, how))
+
+
+def _entropy_real_rank(rows, r, n, reg):
+    """the (repaired) entropy algorithm with the real matrix rank in place of the GF(2) rank: what torch's z2rank computes"""
+    act = rows[r:n]
+    L = len(act)
+    rk = lambda mm: int(np.linalg.matrix_rank(np.array(mm, dtype=float))) if len(mm) and len(mm[0]) else 0
+    sub = lambda o, keep: [b for i in range(n) if (i in reg) == keep for b in O.to_g(o[0])[2 * i:2 * i + 2]]
+    if L == n:
+        across = [o for o in act if any(sub(o, True)) and any(sub(o, False))]
+        am = [[int(O.anticommute((tuple(x[0][i] for i in reg), 0), (tuple(y[0][i] for i in reg), 0))) for y in across] for x in across]
+        return rk(am) // 2
+    return len(reg) - (L - rk([sub(o, False) for o in act]))
